@@ -63,6 +63,24 @@ func genDuo(t *rapid.T) duo.Case {
 		}
 		c.Ops = append(c.Ops, duo.Op{K: "qunpause", R: 0}, duo.Op{K: rapid.SampledFrom([]string{"qcancel", "qcancel", "scancel", "tick"}).Draw(t, "end"), R: 0}, duo.Op{K: "tick"})
 	}
+	if !resumedThenQueued && rapid.IntRange(0, 5).Draw(t, "resent-while-running") == 0 {
+		// the requestor pauses and resumes request 0 (cancel, then the same id again) while the responder's
+		// task for it is held in a storage read: the re-sent request has to wait for that task to end
+		c.Reqs[0].RespGateAt, c.Reqs[0].ReqPauseAt, c.Reqs[0].RespPauseAt, c.Reqs[0].ReqGateAt = rapid.IntRange(1, 3).Draw(t, "sg0"), 0, 0, 0
+		c.Ops = []duo.Op{{K: "start", R: 0}}
+		for k := rapid.IntRange(1, 5).Draw(t, "warm"); k > 0; k-- {
+			c.Ops = append(c.Ops, duo.Op{K: "deliver", N: rapid.IntRange(0, 1).Draw(t, "l")})
+		}
+		c.Ops = append(c.Ops, duo.Op{K: "qpause", R: 0})
+		for k := rapid.IntRange(1, 3).Draw(t, "d1"); k > 0; k-- {
+			c.Ops = append(c.Ops, duo.Op{K: "deliver", N: rapid.IntRange(0, 1).Draw(t, "l")})
+		}
+		c.Ops = append(c.Ops, duo.Op{K: "qunpause", R: 0})
+		for k := rapid.IntRange(1, 3).Draw(t, "d2"); k > 0; k-- {
+			c.Ops = append(c.Ops, duo.Op{K: "deliver", N: rapid.IntRange(0, 1).Draw(t, "l")})
+		}
+		c.Ops = append(c.Ops, duo.Op{K: "sgate", R: 0}, duo.Op{K: "tick"})
+	}
 	c.Ops = append(c.Ops, duo.GenOps(t, n, 30, opKinds)...)
 	c.MaxOut = rapid.SampledFrom([]int{0, 1, 1, 2}).Draw(t, "maxout")
 	if resumedThenQueued {
